@@ -121,6 +121,7 @@ Definition annotated_ref_ok (i : ainput) (p0 : parent) (r0 ra : ref) : bool :=
   if filtered_out (o_filter (i_opts i)) r0 then ref_eqb ra r0
   else
     match hist_of i (r_id r0) with
+    | HFound [] => o_ignore_missing (i_opts i) && ref_eqb ra r0     (* an empty history is missing *)
     | HFound cl =>
         if commit_regime_ref i p0 cl then
           match current_at cis cl (pstamp cis p0) with
@@ -158,7 +159,8 @@ Definition update_ok (i : ainput) (refs_a : list ref) (u : update) : bool :=
               && (u_lon u =? c_lon c) && Bool.eqb (u_reverse u) (c_reverse c)
               && (if stamp_consistent (i_cis i) c then u_timestamp u =? stamp (i_cis i) c else true)
               && match find_version cl (r_version ra) with
-                 | Some s => Nat.ltb (c_vidx s) (c_vidx c)
+                 | Some s => if carries ra s then Nat.ltb (c_vidx s) (c_vidx c)
+                             else true          (* a stale pre-annotation, nothing was selected *)
                  | None => true
                  end
           | None => false
@@ -243,19 +245,19 @@ Definition updates_exact_ok (i : ainput) (o : outcome) : bool :=
 (* a referenced child without history / without a visible version *)
 Definition missing_child (i : ainput) : bool :=
   existsb (fun p => existsb (fun r =>
-      negb (filtered_out (o_filter (i_opts i)) r) &&
-      match hist_of i (r_id r) with HNotFound => true | _ => false end) (p_refs p)) (i_parents i).
+      negb (filtered_out (o_filter (i_opts i)) r) && missing_hist (hist_of i (r_id r))) (p_refs p)) (i_parents i).
 
 Definition error_ok (i : ainput) (o : outcome) : bool :=
   if oc_status o =? 1 then
     (* NoHistoryError: the named child is referenced, has no history, and the option is off *)
     negb (o_ignore_missing (i_opts i)) &&
-    existsb (fun p => existsb (fun r => (r_id r =? oc_fid o) &&
-       match hist_of i (r_id r) with HNotFound => true | _ => false end) (p_refs p)) (i_parents i)
+    existsb (fun p => existsb (fun r => (r_id r =? oc_fid o) && missing_hist (hist_of i (r_id r)))
+                              (p_refs p)) (i_parents i)
   else if oc_status o =? 2 then
     negb (o_ignore_incons (i_opts i)) &&
     existsb (fun p => p_visible p && existsb (fun r => (r_id r =? oc_fid o) &&
        match hist_of i (r_id r) with
+       | HFound [] => false
        | HFound cl =>
            if commit_regime_ref i p cl then
              match current_at (i_cis i) cl (pstamp (i_cis i) p) with
